@@ -13,6 +13,11 @@ class ConstantExpressionEvaluator:
             value = self.eval_binop(expr)
         elif isinstance(expr, expressions.UnaryOperator):
             value = self.eval_unop(expr)
+        elif isinstance(expr, expressions.TernaryOperator):
+            if self.eval_expr(expr.a):
+                value = self.eval_expr(expr.b)
+            else:
+                value = self.eval_expr(expr.c)
         elif isinstance(expr, expressions.VariableAccess):
             value = self.eval_variable_access(expr)
         elif isinstance(expr, expressions.NumericLiteral):
@@ -73,7 +78,7 @@ class ConstantExpressionEvaluator:
 
         # do some real casting:
         if expr.typ.is_integer:
-            value = int(value)
+            value = self.wrap(int(value), expr.typ)
         elif expr.typ.is_float or expr.typ.is_double:
             value = float(value)
         else:
@@ -82,13 +87,15 @@ class ConstantExpressionEvaluator:
 
     def eval_unop(self, expr):
         """Evaluate unary operation."""
-        if expr.op in ["-", "~"]:
+        if expr.op in ["-", "~", "+", "!"]:
             a = self.eval_expr(expr.a)
             op_map = {
                 "-": lambda x: -x,
                 "~": lambda x: ~x,
+                "+": lambda x: x,
+                "!": lambda x: int(not x),
             }
-            value = op_map[expr.op](a)
+            value = self.wrap(op_map[expr.op](a), expr.typ)
         elif expr.op == "&":
             value = self.eval_take_address(expr.a)
         else:  # pragma: no cover
@@ -100,9 +107,16 @@ class ConstantExpressionEvaluator:
 
     def eval_binop(self, expr):
         """Evaluate binary operator."""
+        op = expr.op
+        if op in ["&&", "||"]:
+            # The right hand side is only evaluated when needed:
+            lhs = bool(self.eval_expr(expr.a))
+            if lhs == (op == "&&"):
+                lhs = bool(self.eval_expr(expr.b))
+            return int(lhs)
+
         lhs = self.eval_expr(expr.a)
         rhs = self.eval_expr(expr.b)
-        op = expr.op
 
         op_map = {
             "+": lambda x, y: x + y,
@@ -110,9 +124,24 @@ class ConstantExpressionEvaluator:
             "*": lambda x, y: x * y,
         }
 
+        # Comparison and logical operators yield 0 or 1:
+        op_map["<"] = lambda x, y: int(x < y)
+        op_map[">"] = lambda x, y: int(x > y)
+        op_map["<="] = lambda x, y: int(x <= y)
+        op_map[">="] = lambda x, y: int(x >= y)
+        op_map["=="] = lambda x, y: int(x == y)
+        op_map["!="] = lambda x, y: int(x != y)
+
         # Ensure division is integer division:
         if expr.typ.is_integer:
-            op_map["/"] = lambda x, y: x // y
+            # C division truncates toward zero, the remainder has the sign
+            # of the dividend:
+            def divide(x, y):
+                q = abs(x) // abs(y)
+                return q if (x < 0) == (y < 0) else -q
+
+            op_map["/"] = divide
+            op_map["%"] = lambda x, y: x - y * divide(x, y)
             op_map[">>"] = lambda x, y: x >> y
             op_map["<<"] = lambda x, y: x << y
             op_map["|"] = lambda x, y: x | y
@@ -121,5 +150,15 @@ class ConstantExpressionEvaluator:
         else:
             op_map["/"] = lambda x, y: x / y
 
-        value = op_map[op](lhs, rhs)
+        value = self.wrap(op_map[op](lhs, rhs), expr.typ)
+        return value
+
+    def wrap(self, value, typ):
+        """Convert an integer value to the given integer type."""
+        if isinstance(value, int) and isinstance(typ, types.BasicType):
+            if typ.is_integer:
+                bits = self.context.sizeof(typ) * 8
+                value &= (1 << bits) - 1
+                if typ.is_signed and value >> (bits - 1):
+                    value -= 1 << bits
         return value
